@@ -85,10 +85,12 @@ def run(spec):
     return {'viol': [], 'nt': False, 'cls': ['degenerate'], 'dc': 1}
   det = {'scenario': scen, 'n_pre': fs['n_pre'], 'level': spec['level'], 'tails': spec['tails'], 'cooldown': spec['use_cooldown'],
          'thr': spec['threshold']}
-  if scen in ('ctl_test_only', 'pre_only', 'trt_always_on'):
+  if scen in ('ctl_test_only', 'pre_only', 'trt_always_on', 'un_pre_only'):
     # only the scenario-label clause applies (the incremental cost model is degenerate by construction)
     want = 'variable'
     if scen == 'pre_only' and not (CX[pre].sum() + CY[pre].sum() > 0):
+      want = 'fixed'
+    if scen == 'un_pre_only' and not any(g['g'] == 'u' for g in fs['geos']):
       want = 'fixed'
     try:
       rep = _summ(fit_model(df, kwargs, spec['use_cooldown']), spec)
